@@ -27,7 +27,9 @@ EXTENDS VerifCommon
 CONSTANTS Classes,      \* label-string classes of the bounded model
           Focuses,      \* which kinds are populated: a kind, or "all"
           Counts,       \* entities per populated kind (subset of {1, 2})
-          Filters       \* subset of {"none", "type", "path"}
+          Filters,      \* subset of {"none", "type", "path"}
+          TwoFocuses    \* the focuses that are also populated with two entities per kind (then without filter
+                        \* unless TwoFocuses = Focuses)
 
 \* ------------------------------------------------------------------ code points
 Ascii == " !\"#$%&'()*+,-./0123456789:;<=>?@ABCDEFGHIJKLMNOPQRSTUVWXYZ[\\]^_`abcdefghijklmnopqrstuvwxyz{|}~"
@@ -182,6 +184,7 @@ Init == /\ focus \in Focuses /\ c1 \in Classes /\ c2 \in Classes /\ n \in Counts
         /\ (n = 1 => c2 = c1)                                    \* c2 unused
         /\ (n = 2 => ~(c1 = "empty" /\ c2 = "empty"))            \* two entities need different names
         /\ (filter = "path" => focus \in {"paths", "forward_dests", "all"})
+        /\ (n = 2 => focus \in TwoFocuses /\ (TwoFocuses # Focuses => filter = "none"))
         /\ done = FALSE
 Next == ~done /\ done' = TRUE /\ UNCHANGED <<focus, c1, c2, n, filter>>
 Spec == Init /\ [][Next]_vars
